@@ -198,6 +198,11 @@ def run(ctx, chk):
     import rules as _rnb
     import ownership as _Onb
     _rnb.check_null_belief(chk, "C06.null-belief", prog, _Onb.PathCache(prog, eff))
+    chk.rule("C06.drain", "every NULL-returning path of cbor_load that follows a decoder call leaves through the drain loop: each round releases "
+             "the top item and pops its record, and the loop is left on the stack-empty edge - nothing the decoder built stays behind "
+             "(failure leaves no partial state; shared with C01.drain)")
+    from props.c01 import check_load_paths
+    check_load_paths(chk, prog, eff, R_window=None, R_drain="C06.drain", R_outcome=None)
     chk.exhaustive = True
 
 
